@@ -134,16 +134,19 @@ class Scanner:
 
         return self.scan_grammar_rule
 
-    def scan_grammar_doc_inner(self) -> StateFn | None:
+    def scan_doc_text(self) -> None:
+        # One optional space or tab is not part of the comment text.
         if self.peek() in (" ", "\t"):
             self.next()
 
-        if value := self.scan_until(RE_NEWLINE):
-            self.emit(TokenKind.COMMENT_TEXT, value)
-        else:
-            # Empty comment text
-            self.emit(TokenKind.COMMENT_TEXT, "")
+        self.start = self.pos
+        match = RE_NEWLINE.search(self.grammar, self.pos)
+        # The last line of the grammar might not end with a line break.
+        self.pos = match.start() if match else len(self.grammar)
+        self.emit(TokenKind.COMMENT_TEXT, self.grammar[self.start : self.pos])
 
+    def scan_grammar_doc_inner(self) -> StateFn | None:
+        self.scan_doc_text()
         return self.scan_grammar
 
     def scan_grammar_rule(self) -> StateFn | None:  # noqa: PLR0911
@@ -191,15 +194,7 @@ class Scanner:
         return self.scan_grammar_rule
 
     def scan_rule_doc_inner(self) -> StateFn | None:
-        if self.peek() in (" ", "\t"):
-            self.next()
-
-        if value := self.scan_until(RE_NEWLINE):
-            self.emit(TokenKind.COMMENT_TEXT, value)
-        else:
-            # Empty comment text
-            self.emit(TokenKind.COMMENT_TEXT, "")
-
+        self.scan_doc_text()
         return self.scan_grammar_rule
 
     def accept_expression(self) -> None:
